@@ -34,6 +34,7 @@ type Engine struct {
 	mu        sync.Mutex
 	typeIDs   map[string]int
 	loadSecs  float64
+	known     map[string]*knownFinding // by obligation name
 }
 
 func (e *Engine) typeID(t types.Type) int {
@@ -53,6 +54,15 @@ func (e *Engine) ssaPkg(path string) *ssa.Package { return e.ssaPkgs[path] }
 func (e *Engine) pure(pkgPath, name string) *PureFunc {
 	if pf, ok := e.pures[pkgPath+"::"+name]; ok {
 		return pf
+	}
+	if i := strings.Index(name, "."); i >= 0 {
+		pn, fn := name[:i], name[i+1:]
+		for _, pf := range e.pureAny[fn] {
+			if pf.Pkg[strings.LastIndex(pf.Pkg, "/")+1:] == pn {
+				return pf
+			}
+		}
+		return nil
 	}
 	if l := e.pureAny[name]; len(l) == 1 {
 		return l[0]
@@ -330,10 +340,12 @@ func (f *Frame) finish(nreq int) {
 		if len(r.vals) == 1 {
 			env.vars["result"] = r.vals[0]
 		}
+		f.curEnv = env
 		for i, en := range fc.Ensures {
 			g := env.evalBool(en.Expr)
 			f.oblige("post", fmt.Sprint(i), g, r.pos, en.Props, en.Text)
 		}
+		f.curEnv = nil
 		f.frameCheck(r, env)
 	}
 	// cover: some return is reachable under all assumptions (vacuity guard)
@@ -354,15 +366,18 @@ func (f *Frame) frameCheck(r retInfo, env *SpecEnv) {
 	exact := map[string]bool{}
 	for _, m := range fc.Modifies {
 		lv := pre.lvalue(m)
-		var n string
-		switch lv.path.Kind {
-		case rootHeap:
-			n, _ = c.heapNameObj(lv.path.T)
-		case rootArr:
-			n, _ = c.heapNameArr(lv.path.T)
-		case rootGlobal:
-			n = globalName(lv.path.Glob)
-		default:
+		n := c.heapNameOfPath(lv.path)
+		if n == "" {
+			continue
+		}
+		if strings.HasSuffix(n, ".*") {
+			u := lv.path.T.Underlying().(*types.Struct)
+			for i := 0; i < u.NumFields(); i++ {
+				fn, _ := c.heapNameField(lv.path.T, u, i)
+				allowed[fn] = true
+				exact[fn] = true
+			}
+			c.store(expect, lv.path, c.load(r.st, lv.path))
 			continue
 		}
 		allowed[n] = true
